@@ -387,6 +387,7 @@ func (e *Engine) opQNext(c *cursor) *Violation {
 		if msg, p := call(func() { h = q.EntityAt(idx) }); p {
 			return e.viol("unexpected-panic", nil, "Query.EntityAt(%d) panicked: %s", idx, msg)
 		}
+		e.logEnt(h)
 		if oq.Batch {
 			if !oq.ExpSet[h] {
 				return e.viol("batch-diff", nil, "EntityAt(%d)=%v is not among the affected entities", idx, h)
